@@ -5,7 +5,7 @@ usage: python3-vt tools/selftest.py [--slow]
 Each mutant is applied to a fresh copy of the repository's aldy/ package (outside /repo and /verif, removed
 afterwards); the function under contract is re-verified against the copy (VERIF_REPO). A mutant "survives" when every
 obligation is still proved - that would mean the contract is too weak or the engine unsound. Exit 1 if any survives.
-(The 38 seeded changes under /verif/seeded are the end-to-end counterpart: tools/seedrun.sh.)"""
+(The seeded changes under /verif/seeded are the end-to-end counterpart: tools/seedrun.sh.)"""
 import os
 import shutil
 import subprocess
@@ -59,6 +59,19 @@ MUTANTS = [
      "aldy.diplotype.estimate_diplotype@deletion-placeholders", "one-placeholder-per-missing-copy"),
     ("aldy/profile.py", "        self.threshold = 0.5\n", "        self.threshold = 0.4\n", "aldy.profile.Profile.__init__", "default/threshold"),
     ("aldy/coverage.py", "            if q >= self.profile.min_quality", "            if q > self.profile.min_quality", "aldy.coverage.Coverage.quality_filter", "post"),
+    ("aldy/sam.py", "                        if op in [0, 7, 8, 2]:\n                            for i in range(size):\n                                self._dump_cn[start + i] += 1",
+     "                        if op in [0, 7, 8, 2]:\n                            for i in range(size - 1):\n                                self._dump_cn[start + i] += 1",
+     "aldy.sam.Sample._load_cn_region@one-cigar-op", "every-spanned-base-counted-once"),
+    ("aldy/profile.py", "                            if op == 2:\n                                for i in range(size):\n                                    cov[c][start + i] += 1\n                                start += size",
+     "                            if op == 2:\n                                start += size",
+     "aldy.profile.Profile.get_sam_profile_data@one-cigar-op", "every-spanned-base-counted-once"),
+    ("aldy/profile.py", "            cn_region if cn_region else default_cn_neutral_region[genome]", "            default_cn_neutral_region[genome]",
+     "aldy.profile.Profile.get_sam_profile_data@neutral-region", "custom-neutral-region-used"),
+    ("aldy/lpinterface.py", "self.addConstr(self.quicksum(vv.values()) <= len(vv) - 1)", "self.addConstr(self.quicksum(vv.values()) <= len(vv))",
+     "aldy.lpinterface.Gurobi.solutions@cut", "family/"),
+    ("aldy/sam.py", "                muts[mut].append((bin_quality(mq), bin_quality(q)))\n                prev_q = q\n                dump_arr.append(mut)",
+     "                muts[mut].append((bin_quality(mq), bin_quality(q)))\n                norm[start].append((bin_quality(mq), bin_quality(q)))\n                prev_q = q\n                dump_arr.append(mut)",
+     "aldy.sam.Sample._parse_read@insertion-op", "no-reference-observation"),
 ]
 SLOW = [
     ("aldy/major.py", 'name=f"CSAT_{cnf}"', 'name=f"CSAT_{cnf}") if False else model.addConstr(expr <= cnt + 1, name=f"CSAT_{cnf}"',
